@@ -426,9 +426,14 @@ impl Scenario for PoolSim {
         let cfg = Cfg { init_total: pick_total(&mut rng), init_short: pick_total(&mut rng) };
 
         let mut rng = Rng::derive(seed, run, "poolsim.plan");
-        let n = match tier {
-            Tier::Quick => rng.range(30, 160),
-            Tier::Thorough => rng.range(30, 400),
+        // mostly long histories (a run costs about 1 µs per step), with a share of short ones
+        let n = if rng.chance(1, 5) {
+            rng.range(20, 200)
+        } else {
+            match tier {
+                Tier::Quick => rng.range(1000, 6000),
+                Tier::Thorough => rng.range(1000, 8000),
+            }
         };
         let amt = |rng: &mut Rng| -> Amt {
             match rng.below(100) {
@@ -702,6 +707,6 @@ impl Scenario for PoolSim {
     }
 
     fn rule(&self) -> String {
-        "one run = an initial stored total (special values around 0, 2^64, 2^127, u128::MAX or log-uniform) and 30-400 operations (long delta, short delta, two-sided checked delta, cancel, cancel without storing) whose amounts are log-uniform, i128 extremes, tiny parity-changing values, or relative to the current total (to zero, to max, under by k, over by k); the same history runs on the store pool, the SDK pool and on impure controls. distinct_nontrivial counts trigrams of (pool kind, op, outcome class) plus fingerprints (total bucket, parity, op, outcome class)".into()
+        "one run = an initial stored total (special values around 0, 2^64, 2^127, u128::MAX or log-uniform) and 20-8000 operations (long delta, short delta, two-sided checked delta, cancel, cancel without storing) whose amounts are log-uniform, i128 extremes, tiny parity-changing values, or relative to the current total (to zero, to max, under by k, over by k); the same history runs on the store pool, the SDK pool and on impure controls. distinct_nontrivial counts trigrams of (pool kind, op, outcome class) plus fingerprints (total bucket, parity, op, outcome class)".into()
     }
 }
